@@ -88,6 +88,67 @@ func caFor(k *sigKey, variant string) (*caEntry, error) {
 	return e, nil
 }
 
+// intermediateFor returns a CA certificate for key k that was ISSUED by the self-signed CA of parent and signed with
+// parentAlg (0 = the parent's default): a parsed issuer whose own SignatureAlgorithm field says nothing about its key.
+func intermediateFor(parent *sigKey, parentAlg algInfo, k *sigKey) (*caEntry, error) {
+	root, err := caFor(parent, "std")
+	if err != nil {
+		return nil, err
+	}
+	id := "inter/" + k.ID + "/under/" + parent.ID + "/" + parentAlg.Name
+	caMu.Lock()
+	defer caMu.Unlock()
+	if e, ok := caCache[id]; ok {
+		return e, nil
+	}
+	if err, ok := caErr[id]; ok {
+		return nil, err
+	}
+	tpl := &x509.Certificate{
+		SerialNumber:          big.NewInt(5000 + int64(len(caCache))),
+		Subject:               pkix.Name{CommonName: "verif intermediate " + id, Organization: []string{"verif"}},
+		NotBefore:             caNotBefore,
+		NotAfter:              caNotAfter,
+		BasicConstraintsValid: true,
+		IsCA:                  true,
+		KeyUsage:              x509.KeyUsageCertSign | x509.KeyUsageCRLSign | x509.KeyUsageDigitalSignature,
+		SubjectKeyId:          []byte{0x1c, byte(len(caCache)), byte(len(caCache) >> 8), 7, 7},
+		SignatureAlgorithm:    parentAlg.Algo,
+	}
+	var der []byte
+	var cert *x509.Certificate
+	if pi := core.Guard(func() {
+		der, err = x509.CreateCertificate(fixedReader(id), tpl, root.Cert, k.Signer().Public(), parent.Signer())
+		if err == nil {
+			cert, err = x509.ParseCertificate(der)
+		}
+		if err == nil {
+			err = cert.CheckSignatureFrom(root.Cert)
+		}
+	}); pi != nil {
+		err = fmt.Errorf("panic %s", pi.Key)
+	}
+	if err != nil {
+		caErr[id] = err
+		return nil, err
+	}
+	e := &caEntry{Key: k, Cert: cert, DER: der}
+	caCache[id] = e
+	return e, nil
+}
+
+// algFits reports whether the RSA modulus of k can carry the algorithm's encoded message.
+func algFits(a algInfo, k *sigKey) bool {
+	if k.Family != "RSA" || a.Algo == 0 {
+		return true
+	}
+	need := a.Hash.Size() + 19 + 11
+	if a.PSS {
+		need = 2*a.Hash.Size() + 2
+	}
+	return need <= k.Bits/8
+}
+
 // ---- create leg -------------------------------------------------------------------------
 
 type createCase struct {
@@ -95,6 +156,9 @@ type createCase struct {
 	Alg  algInfo // Algo 0 = default
 	Key  *sigKey
 	Mode string
+	// Parent / ParentAlg: the issuer certificate is not self-signed but issued by Parent's CA and signed with ParentAlg
+	Parent    *sigKey
+	ParentAlg algInfo
 }
 
 func createKeys(c *core.Ctx) []*sigKey {
@@ -129,6 +193,20 @@ func runCreateLeg(c *core.Ctx) {
 			}
 		}
 	}
+	// issuers that are parsed certificates issued by another CA: every parent family x every algorithm valid for the parent
+	// (incl. PSS, SHA-1/384/512, MD5) x the issuer's own key type; the object itself is requested with the default algorithm
+	p := pool()
+	parents := map[string]*sigKey{"RSA": p.RSA[9], "ECDSA": p.EC[5], "Ed25519": p.Ed[1]}
+	for _, k := range createKeys(c) {
+		for _, a := range algTable {
+			if !a.Usable || parents[a.Family] == nil {
+				continue
+			}
+			for _, api := range []string{"CreateCRL", "CreateRevocationList", "ocsp.CreateResponse"} {
+				cases = append(cases, createCase{API: api, Alg: algByValue(0), Key: k, Parent: parents[a.Family], ParentAlg: a})
+			}
+		}
+	}
 	for i, cc := range cases {
 		if i%c.NShards != c.Shard {
 			continue
@@ -142,8 +220,19 @@ var createNow = time.Date(2024, 2, 29, 23, 59, 58, 0, time.UTC)
 func runCreate(c *core.Ctx, cc createCase) {
 	id := fmt.Sprintf("create/%s/%s/%s", cc.API, cc.Alg.Name, cc.Key.ID)
 	input := map[string]any{"api": cc.API, "algorithm": cc.Alg.Name, "algorithm_value": int(cc.Alg.Algo), "key": cc.Key.ID}
+	apiLabel := cc.API
 	c.Eval(1)
 	ca, err := caFor(cc.Key, "std")
+	if err == nil && cc.Parent != nil {
+		id += "/issuer-under/" + cc.Parent.ID + "/" + cc.ParentAlg.Name
+		input["issuer_certificate_issued_by"] = cc.Parent.ID
+		input["issuer_certificate_signed_with"] = cc.ParentAlg.Name
+		apiLabel += "(issuer-signed-with-" + cc.ParentAlg.Name + ")"
+		ca, err = intermediateFor(cc.Parent, cc.ParentAlg, cc.Key)
+		if err == nil {
+			input["issuer_der"] = core.FullHex(ca.DER)
+		}
+	}
 	if err != nil {
 		c.Violation("create:CA-with-default-algorithm-failed:"+cc.Key.Family, err.Error(), id, input)
 		return
@@ -274,6 +363,9 @@ func runCreate(c *core.Ctx, cc createCase) {
 	famOK := cc.Alg.Algo == 0 || (cc.Alg.Family == cc.Key.Family && cc.Alg.Usable)
 	if cerr != nil {
 		c.Count("create_refused", 1)
+		if cc.Parent != nil {
+			c.Count("create_refused_with_issued_issuer:"+cc.API+":"+cc.Key.Family+"-under-"+cc.ParentAlg.Name, 1)
+		}
 		if famOK {
 			// matching family, yet refused: legitimate when the key is too small for the encoding, or the API does not offer the scheme
 			c.Count("create_refused_matching_family:"+cc.API+":"+cc.Alg.Name, 1)
@@ -294,7 +386,7 @@ func runCreate(c *core.Ctx, cc createCase) {
 	}
 	c.Nontrivial(id)
 	if verr != nil {
-		c.Violation("created-object-fails-own-verification:"+cc.API+":"+cc.Alg.Name, fmt.Sprintf("signer key %s: %v", cc.Key.ID, verr), id, input)
+		c.Violation("created-object-fails-own-verification:"+apiLabel+":"+cc.Alg.Name, fmt.Sprintf("signer key %s: %v", cc.Key.ID, verr), id, input)
 		return
 	}
 	c.Count("created_and_verified:"+cc.API, 1)
@@ -303,7 +395,7 @@ func runCreate(c *core.Ctx, cc createCase) {
 	}
 	// independent view of the same bytes
 	if tbs != nil && !effectiveValid(verifierKey, algByValue(palgo), tbs, sig) {
-		c.Violation("created-object-invalid-per-reference:"+cc.API+":"+cc.Alg.Name, fmt.Sprintf("signer key %s: own API accepts, the standard library rejects", cc.Key.ID), id, input)
+		c.Violation("created-object-invalid-per-reference:"+apiLabel+":"+cc.Alg.Name, fmt.Sprintf("signer key %s: own API accepts, the standard library rejects", cc.Key.ID), id, input)
 	}
 	if c.WantSample() && cc.Alg.Algo != 0 {
 		c.Sample(map[string]any{"api": cc.API, "algorithm": cc.Alg.Name, "key": cc.Key.ID, "der": core.Hex(der)})
